@@ -1279,12 +1279,13 @@ def _make_pianoroll(
     if end_time is None:
         N = int(np.ceil(time_div * time_margin + pr_offset.max()))
     else:
-        if end_time * time_div < pr_offset.max():
+        # pr_offset already includes the leading time margin
+        if end_time * time_div + int(time_margin * time_div) < pr_offset.max():
             raise ValueError(
                 "`end_time` must be higher or equal than the last note offset time"
             )
         else:
-            N = int(np.ceil(time_div * time_margin + time_div * end_time))
+            N = int(np.ceil(2 * time_div * time_margin + time_div * end_time))
 
     # Determine the non-zero indices of the piano roll
     if onset_only:
